@@ -387,6 +387,10 @@ impl SchemaRegistry {
       }
     }
 
+    if let Some(Schema::Object(ref schema_ref)) = schema.additional_properties {
+      refs.extend(self.collect_ref(schema_ref, union_fingerprints));
+    }
+
     refs
   }
 
